@@ -16,11 +16,21 @@ class TableRep:
         return g
 
 
-def extra_field_fns(n):
+def extra_names(case):
+    """Names of the extra fields. case["collide"] (a column name) renames the first extra field to an
+    existing column: the documented merge then re-defines that column in place."""
+    names = [f"Extra{k}" for k in range(case["n_extra"])]
+    if names and case.get("collide"):
+        names[0] = case["collide"]
+    return names
+
+
+def extra_field_fns(n, names=None):
     """n distinct pure functions of the individual's program."""
     fns = {}
     for k in range(n):
-        fns[f"Extra{k}"] = (lambda k: (lambda t, i, p: f"e{k}:{i.get_phenotype()[0]}:{sum(i.get_phenotype()[1]) * (k + 1)}"))(k)
+        nm = names[k] if names else f"Extra{k}"
+        fns[nm] = (lambda k: (lambda t, i, p: f"e{k}:{i.get_phenotype()[0]}:{sum(i.get_phenotype()[1]) * (k + 1)}"))(k)
     return fns
 
 
@@ -49,7 +59,7 @@ def build(case, path, extra_recorders_before=(), extra_recorders_after=()):
     if case["fields"] == "custom":
         kwargs["fields"] = custom_field_fns(k)
     if case["n_extra"] > 0:
-        kwargs["extra_fields"] = extra_field_fns(case["n_extra"])
+        kwargs["extra_fields"] = extra_field_fns(case["n_extra"], extra_names(case))
     rec = CSVSearchRecorder(path, problem, only_record_best_individuals=case["only_best"], **kwargs)
     recorders = list(extra_recorders_before) + [rec] + list(extra_recorders_after)
     if isinstance(problem, SingleObjectiveProblem):
@@ -76,7 +86,7 @@ def header_for(case):
         h = ["Idx"] + [f"Obj{c}" for c in range(k)] + ["Agg"]
     else:
         h = ["Execution Time", "Phenotype"] + [f"Fitness{c}" for c in range(k)]
-    h += [f"Extra{j}" for j in range(case["n_extra"])]
+    h += [nm for nm in extra_names(case) if nm not in h]
     return h
 
 
@@ -88,8 +98,11 @@ def expected_row(case, idx, vec, aggregate):
         row = [idx] + comps + [aggregate]
     else:
         row = ["<time>", (idx, tuple(vec))] + comps
-    row += [f"e{j}:{idx}:{sum(vec) * (j + 1)}" for j in range(case["n_extra"])]
-    return [str(x) for x in row]
+    cols = header_for(case)
+    cells = dict(zip(cols, row))  # the configured columns, then the extra fields by name (an extra
+    for j, nm in enumerate(extra_names(case)):  # field named like a column re-defines it in place)
+        cells[nm] = f"e{j}:{idx}:{sum(vec) * (j + 1)}"
+    return [str(cells[c]) for c in cols]
 
 
 def read_raw(path) -> bytes:
